@@ -494,31 +494,6 @@ fn pending_is_registered() {
     }
 }
 
-// ---- allocation shims --------------------------------------------------------------
-//
-// Every heap block on the stream paths is N one-byte items wide (the vector's
-// storage, and for a lifted payload the `Cleanup` scratch buffer of
-// `elem_size * len` bytes).  The length reaches `Cleanup::new` through
-// `Vec::len()` of a vector that has been moved around, which CBMC does not
-// constant-fold; a request of symbolic size makes the formula explode
-// (measured: > 12 GB).  The shims *assert* that the request is exactly N bytes
-// and serve it with a constant-size request.
-macro_rules! alloc_shim {
-    ($name:ident, $n:expr) => {
-        unsafe fn $name(layout: Layout) -> *mut u8 {
-            assert!(layout.size() == $n && layout.align() == 1, "unexpected allocation request");
-            std::alloc::alloc_zeroed(Layout::from_size_align_unchecked($n, 1))
-        }
-    };
-}
-alloc_shim!(alloc_1, 1);
-alloc_shim!(alloc_2, 2);
-alloc_shim!(alloc_3, 3);
-unsafe fn alloc_0(_: Layout) -> *mut u8 {
-    assert!(false, "allocation for an empty vector");
-    core::ptr::null_mut()
-}
-
 // ---- ReturnCode::decode ------------------------------------------------------------
 
 /// All 2^32 inputs that are valid encodings: `BLOCKED`, or `(amount << 4) | tag`
@@ -708,11 +683,10 @@ unsafe fn finish_write<T: Item>(len: usize, back: usize) {
 }
 
 macro_rules! c19w {
-    ($name:ident, $t:ty, $len:expr, $alloc:ident, [$($script:tt)*], $covers:expr) => {
+    ($name:ident, $t:ty, $len:expr, [$($script:tt)*], $covers:expr) => {
         #[kani::proof]
         #[kani::unwind(5)]
         #[kani::stub(wit_bindgen::rt::async_support::cabi::wasip3_task_set, crate::mock_task::stub_task_set)]
-        #[kani::stub(std::alloc::alloc, $alloc)]
         fn $name() {
             unsafe {
                 let mut t1 = mt::new_v1_a();
@@ -793,23 +767,23 @@ fn cw_len0() {
 // quick tier: 2 items (counts 0, 1 = partial, 2 = all); thorough tier: 3 items
 // for the canonical payload (the lifted payload with 3 items exceeds the
 // 12 GB cap as soon as an event is involved)
-c19w!(c19_write_u8_pc, u8, 2, alloc_2, [P C], cw_pc::<2>);
-c19w!(c19_write_u8_pec, u8, 2, alloc_2, [P E C], cw_pec::<2>);
-c19w!(c19_write_u8_pep, u8, 2, alloc_2, [P E P], cw_pep::<2>);
-c19w!(c19_write_u8_pd, u8, 2, alloc_2, [P], cw_pd::<2>);
-c19w!(c19_write_u8_ped, u8, 2, alloc_2, [P E], cw_ped::<2>);
-c19w!(c19_write_u8_len0_pc, u8, 0, alloc_0, [P C], cw_len0);
-c19w!(c19_write_val_pc, Val, 2, alloc_2, [P C], cw_pc::<2>);
-c19w!(c19_write_val_pep, Val, 1, alloc_1, [P E P], cw_pep1);
-c19w!(c19_write_val_pd, Val, 2, alloc_2, [P], cw_pd::<2>);
-c19w!(c19_deep_write_val_pec, Val, 2, alloc_2, [P E C], cw_pec::<2>);
-c19w!(c19_deep_write_val_ped, Val, 2, alloc_2, [P E], cw_ped::<2>);
-c19w!(c19_deep_write_u8_len3_pc, u8, 3, alloc_3, [P C], cw_pc::<3>);
-c19w!(c19_deep_write_u8_len3_pec, u8, 3, alloc_3, [P E C], cw_pec::<3>);
-c19w!(c19_deep_write_u8_len3_pep, u8, 3, alloc_3, [P E P], cw_pep::<3>);
-c19w!(c19_deep_write_u8_len3_pd, u8, 3, alloc_3, [P], cw_pd::<3>);
-c19w!(c19_deep_write_val_len3_pc, Val, 3, alloc_3, [P C], cw_pc::<3>);
-c19w!(c19_deep_write_val_len3_pd, Val, 3, alloc_3, [P], cw_pd::<3>);
+c19w!(c19_write_u8_pc, u8, 2, [P C], cw_pc::<2>);
+c19w!(c19_write_u8_pec, u8, 2, [P E C], cw_pec::<2>);
+c19w!(c19_write_u8_pep, u8, 2, [P E P], cw_pep::<2>);
+c19w!(c19_write_u8_pd, u8, 2, [P], cw_pd::<2>);
+c19w!(c19_write_u8_ped, u8, 2, [P E], cw_ped::<2>);
+c19w!(c19_write_u8_len0_pc, u8, 0, [P C], cw_len0);
+c19w!(c19_write_val_pc, Val, 2, [P C], cw_pc::<2>);
+c19w!(c19_write_val_pep, Val, 1, [P E P], cw_pep1);
+c19w!(c19_write_val_pd, Val, 2, [P], cw_pd::<2>);
+c19w!(c19_deep_write_val_pec, Val, 2, [P E C], cw_pec::<2>);
+c19w!(c19_deep_write_val_ped, Val, 2, [P E], cw_ped::<2>);
+c19w!(c19_deep_write_u8_len3_pc, u8, 3, [P C], cw_pc::<3>);
+c19w!(c19_deep_write_u8_len3_pec, u8, 3, [P E C], cw_pec::<3>);
+c19w!(c19_deep_write_u8_len3_pep, u8, 3, [P E P], cw_pep::<3>);
+c19w!(c19_deep_write_u8_len3_pd, u8, 3, [P], cw_pd::<3>);
+c19w!(c19_deep_write_val_len3_pc, Val, 3, [P C], cw_pc::<3>);
+c19w!(c19_deep_write_val_len3_pd, Val, 3, [P], cw_pd::<3>);
 
 // ---- write_all / write_one: several rendezvous -------------------------------------
 
@@ -830,11 +804,10 @@ macro_rules! drive {
 }
 
 macro_rules! c19wall {
-    ($name:ident, $t:ty, $len:expr, $unwind:expr, $alloc:ident, [$($rounds:tt)*]) => {
+    ($name:ident, $t:ty, $len:expr, $unwind:expr, [$($rounds:tt)*]) => {
         #[kani::proof]
         #[kani::unwind($unwind)]
         #[kani::stub(wit_bindgen::rt::async_support::cabi::wasip3_task_set, crate::mock_task::stub_task_set)]
-        #[kani::stub(std::alloc::alloc, $alloc)]
         fn $name() {
             unsafe {
                 let mut t1 = mt::new_v1_a();
@@ -872,14 +845,13 @@ macro_rules! c19wall {
         }
     };
 }
-c19wall!(c19_write_all_u8, u8, 2, 4, alloc_2, [R R]);
-c19wall!(c19_deep_write_all_u8_len3, u8, 3, 5, alloc_3, [R R R]);
-c19wall!(c19_deep_write_all_val, Val, 2, 4, alloc_2, [R R]);
+c19wall!(c19_write_all_u8, u8, 2, 4, [R R]);
+c19wall!(c19_deep_write_all_u8_len3, u8, 3, 5, [R R R]);
+c19wall!(c19_deep_write_all_val, Val, 2, 4, [R R]);
 
 #[kani::proof]
-#[kani::unwind(3)]
+#[kani::unwind(2)]
 #[kani::stub(wit_bindgen::rt::async_support::cabi::wasip3_task_set, crate::mock_task::stub_task_set)]
-#[kani::stub(std::alloc::alloc, alloc_1)]
 fn c19_write_one_u8() {
     unsafe {
         let mut t1 = mt::new_v1_a();
@@ -1000,11 +972,10 @@ unsafe fn finish_read<T: Item>(held: usize) {
 }
 
 macro_rules! c19r {
-    ($name:ident, $t:ty, $cap:expr, $alloc:ident, [$($script:tt)*], $covers:expr) => {
+    ($name:ident, $t:ty, $cap:expr, [$($script:tt)*], $covers:expr) => {
         #[kani::proof]
         #[kani::unwind(5)]
         #[kani::stub(wit_bindgen::rt::async_support::cabi::wasip3_task_set, crate::mock_task::stub_task_set)]
-        #[kani::stub(std::alloc::alloc, $alloc)]
         fn $name() {
             unsafe {
                 let mut t1 = mt::new_v1_a();
@@ -1063,27 +1034,26 @@ fn cr_ped<const N: usize>() {
     }
 }
 
-c19r!(c19_read_u8_pc, u8, 2, alloc_2, [P C], cr_pc::<2>);
-c19r!(c19_read_u8_pec, u8, 2, alloc_2, [P E C], cr_pec::<2>);
-c19r!(c19_read_u8_pep, u8, 2, alloc_2, [P E P], cr_pep::<2>);
-c19r!(c19_read_u8_pd, u8, 2, alloc_2, [P], cr_pd::<2>);
-c19r!(c19_read_u8_ped, u8, 2, alloc_2, [P E], cr_ped::<2>);
-c19r!(c19_read_val_pc, Val, 2, alloc_2, [P C], cr_pc::<2>);
-c19r!(c19_read_val_pep, Val, 1, alloc_1, [P E P], cr_pep1);
-c19r!(c19_read_val_pd, Val, 2, alloc_2, [P], cr_pd::<2>);
-c19r!(c19_deep_read_val_pec, Val, 2, alloc_2, [P E C], cr_pec::<2>);
-c19r!(c19_deep_read_val_ped, Val, 2, alloc_2, [P E], cr_ped::<2>);
-c19r!(c19_deep_read_u8_cap3_pc, u8, 3, alloc_3, [P C], cr_pc::<3>);
-c19r!(c19_deep_read_u8_cap3_pec, u8, 3, alloc_3, [P E C], cr_pec::<3>);
-c19r!(c19_deep_read_u8_cap3_pep, u8, 3, alloc_3, [P E P], cr_pep::<3>);
-c19r!(c19_deep_read_u8_cap3_pd, u8, 3, alloc_3, [P], cr_pd::<3>);
+c19r!(c19_read_u8_pc, u8, 2, [P C], cr_pc::<2>);
+c19r!(c19_read_u8_pec, u8, 2, [P E C], cr_pec::<2>);
+c19r!(c19_read_u8_pep, u8, 2, [P E P], cr_pep::<2>);
+c19r!(c19_read_u8_pd, u8, 2, [P], cr_pd::<2>);
+c19r!(c19_read_u8_ped, u8, 2, [P E], cr_ped::<2>);
+c19r!(c19_read_val_pc, Val, 2, [P C], cr_pc::<2>);
+c19r!(c19_read_val_pep, Val, 1, [P E P], cr_pep1);
+c19r!(c19_read_val_pd, Val, 2, [P], cr_pd::<2>);
+c19r!(c19_deep_read_val_pec, Val, 2, [P E C], cr_pec::<2>);
+c19r!(c19_deep_read_val_ped, Val, 2, [P E], cr_ped::<2>);
+c19r!(c19_deep_read_u8_cap3_pc, u8, 3, [P C], cr_pc::<3>);
+c19r!(c19_deep_read_u8_cap3_pec, u8, 3, [P E C], cr_pec::<3>);
+c19r!(c19_deep_read_u8_cap3_pep, u8, 3, [P E P], cr_pep::<3>);
+c19r!(c19_deep_read_u8_cap3_pd, u8, 3, [P], cr_pd::<3>);
 
 // ---- next / collect ------------------------------------------------------------------
 
 #[kani::proof]
 #[kani::unwind(5)]
 #[kani::stub(wit_bindgen::rt::async_support::cabi::wasip3_task_set, crate::mock_task::stub_task_set)]
-#[kani::stub(std::alloc::alloc, alloc_1)]
 fn c19_next_u8() {
     unsafe {
         let mut t1 = mt::new_v1_a();
